@@ -9,7 +9,12 @@ selections) have the same answers - mixing up contigs, samples or cache files is
 import os
 import shutil
 
-SAMPLES = ('S1', 'S2', 'S3')
+# long strain-like names: the second and the third share their first 57 characters, and a sorted two-sample selection is
+# longer than 128 characters (file-name length handling of the cache must not make two selections collide)
+S1 = 'Alpha_' + 'r' * 64
+S2 = 'Strain_' + 'q' * 60 + '_2'
+S3 = 'Strain_' + 'q' * 60 + '_3'
+SAMPLES = (S1, S2, S3)
 CONTIGS = ('c1', 'c2', 'c3_random')
 CACHED_CONTIGS = ('c1', 'c2')
 ABSENT = 'zz'                      # not in the header, no records
